@@ -236,6 +236,9 @@ impl DocumentBuilder {
     }
 
     fn cdata_text(&mut self, content: &str, xot: &mut Xot) -> Result<NodeId, ParseError> {
+        // line ends are normalized in CDATA sections too
+        // https://www.w3.org/TR/xml/#sec-line-ends
+        let content = &content.replace("\r\n", "\n").replace('\r', "\n");
         if let Some(last) = self.consolidate_text(content, xot) {
             return Ok(last);
         }
@@ -707,8 +710,12 @@ impl Xot {
                         span_info.extend_text_span(node_id.into(), text.into());
                     }
                     Cdata { text, span: _ } => {
-                        let node_id = builder.cdata_text(text.as_str(), self)?;
-                        span_info.extend_text_span(node_id.into(), text.into());
+                        // an empty CDATA section contributes no character data, and
+                        // there are no empty text nodes
+                        if !text.is_empty() {
+                            let node_id = builder.cdata_text(text.as_str(), self)?;
+                            span_info.extend_text_span(node_id.into(), text.into());
+                        }
                     }
                     ElementStart {
                         prefix,
